@@ -30,8 +30,7 @@ structure Out where
   hours : Nat
   id : Id          -- uxid under the transaction's own hash (non-genesis rule)
   snap : Nat := 0  -- snapshot hash (64-bit prefix) in the block being executed
-  cid : Id := ""   -- id the node's collision check derives: coin.CreateUnspents(head, txn), which
-                   -- uses a ZERO source hash while the head is the genesis block
+  cid : Id := ""   -- id of this output under a ZERO source hash (see `collides`)
 deriving Repr, DecidableEq, Inhabited
 
 structure Txn where
@@ -208,7 +207,10 @@ def soft (r : R α) : R α := match r with | .ok a => .ok a | .error e => .error
 def headTime (s : State) : Nat := match s.chain.getLast? with | some b => b.time | none => 0
 def headSeq (s : State) : Nat := match s.chain.getLast? with | some b => b.seq | none => 0
 
-def collides (s : State) (t : Txn) : Bool := t.outs.any fun o => contains s.unspent o.cid
+/-- DebugLevel1 collision check: `coin.CreateUnspents(head, txn)` — while the head is the genesis block
+(seq 0) this derives the ids with a ZERO source hash (`cid`), afterwards with the transaction's hash -/
+def collides (s : State) (t : Txn) : Bool :=
+  t.outs.any fun o => contains s.unspent (if headSeq s == 0 then o.cid else o.id)
 
 /-- Blockchain.VerifyBlockTxnConstraints -/
 def verifyBlockTxn (s : State) (t : Txn) : R Unit := do
@@ -290,16 +292,30 @@ def insertSorted (x : Keyed) : List Keyed → List Keyed
 
 def sortKeyed (xs : List Keyed) : List Keyed := xs.foldr insertSorted []
 
+/-- fee of a transaction against the current head, as Blockchain.TransactionFee computes it -/
+def txnFee (s : State) (t : Txn) : R Nat :=
+  match getArray s.unspent t.ins with
+  | .error e => .error e
+  | .ok uxIn => transactionFee t (headTime s) uxIn
+
 /-- NewSortableTransactions: a transaction whose fee cannot be computed is dropped -/
-def sortTransactions (s : State) (txns : List Txn) : R (List Txn) := do
-  let keyed ← txns.foldrM (fun t acc =>
-      match (do let uxIn ← getArray s.unspent t.ins; transactionFee t (headTime s) uxIn : R Nat) with
-      | .error _ => (.ok acc : R (List Keyed))
+def keyTxns (s : State) : List Txn → R (List Keyed)
+  | [] => .ok []
+  | t :: ts =>
+    match keyTxns s ts with
+    | .error e => .error e
+    | .ok acc =>
+      match txnFee s t with
+      | .error _ => .ok acc
       | .ok f => match t.size with
         | none => .error "size"
         | some 0 => .error "panic"
-        | some sz => .ok ({ txn := t, fee := feeKB f sz } :: acc)) []
-  .ok ((sortKeyed keyed).map (·.txn))
+        | some sz => .ok ({ txn := t, fee := feeKB f sz } :: acc)
+
+def sortTransactions (s : State) (txns : List Txn) : R (List Txn) :=
+  match keyTxns s txns with
+  | .error e => .error e
+  | .ok keyed => .ok ((sortKeyed keyed).map (·.txn))
 
 /-! ### Blockchain.processTransactions -/
 
@@ -355,18 +371,22 @@ def ptLoop2 (arb : Bool) : List Txn → R (List Bool)
       | .error e => .error e
       | .ok restFlags => .ok (false :: (List.zipWith (· || ·) flags restFlags))
 
-/-- the order of error detection in the Go double loop is (i, j) lexicographic with the duptxn
-    check before the inputs check; `ptLoop2` explores i's row completely before later rows, as Go does. -/
-def processTransactions (s : State) (txns : List Txn) : R (List Txn) := do
-  let arb := s.cfg.arb
+/-- the part of `processTransactions` after the optional sort.  The order of error detection in the Go
+    double loop is (i, j) lexicographic with the duptxn check before the inputs check; `ptLoop2`
+    explores i's row completely before later rows, as Go does. -/
+def ptCore (s : State) (arb : Bool) (v : List Txn) : R (List Txn) :=
+  if v.isEmpty then (if arb then .ok [] else .error "notxns")
+  else match ptLoop1 s arb v [] with
+    | .error e => .error e
+    | .ok kept => match ptLoop2 arb kept with
+      | .error e => .error e
+      | .ok fl => .ok ((kept.zip fl).filterMap fun (p : Txn × Bool) => if p.2 then none else some p.1)
+
+def processTransactions (s : State) (txns : List Txn) : R (List Txn) :=
   if s.chain.isEmpty then .error "nohead"
-  let txns ← if arb then sortTransactions s txns else .ok txns
-  if txns.isEmpty then
-    if arb then .ok [] else .error "notxns"
-  else
-    let kept ← ptLoop1 s arb txns []
-    let flags ← ptLoop2 arb kept
-    .ok ((kept.zip flags).filterMap fun (t, f) => if f then none else some t)
+  else if s.cfg.arb then
+    (match sortTransactions s txns with | .error e => .error e | .ok v => ptCore s true v)
+  else ptCore s false txns
 
 /-! ### unspent pool update (Unspents.ProcessBlock) -/
 
@@ -567,10 +587,38 @@ def createBlock (s : State) (txns : List Txn) (when_ : Nat) : R (List Txn × Nat
   if when_ ≤ headTime s then .error "time-forward"
   let txns2 ← processTransactions s trunc
   if txns2.isEmpty then .error "notxns-newblock"   -- coin.NewBlock refuses an empty list
-  let fees ← txns2.mapM fun t => do
-    let uxIn ← getArray s.unspent t.ins
-    transactionFee t (headTime s) uxIn
+  let fees ← txns2.mapM (txnFee s)
   let some fee := sumU64? fees | .error "block-fees"
   .ok (txns2, fee)
+
+/-! ### block synchronisation (daemon GiveBlocksMessage / AnnounceBlocksMessage / GetBlocksMessage) -/
+
+/-- GiveBlocksMessage.process: skip blocks at or below the head sequence AS OF THE START of the message,
+execute the others in arrival order, stop the message at the first failure -/
+def giveLoop (maxSeq : Nat) : State → List Block → Nat → State × Nat
+  | s, [], n => (s, n)
+  | s, b :: bs, n =>
+    if b.seq ≤ maxSeq then giveLoop maxSeq s bs n
+    else match execSigned s b with
+      | .ok s' => giveLoop maxSeq s' bs (n + 1)
+      | .error _ => (s, n)
+
+/-- returns the new state, the number of blocks processed and the messages emitted -/
+def giveBlocks (s : State) (blocks : List Block) (reqCount : Nat) : State × Nat × List String :=
+  if s.chain.isEmpty then (s, 0, []) else
+  let (s', n) := giveLoop (headSeq s) s blocks 0
+  if n == 0 then (s', 0, [])
+  else (s', n, [s!"bcast:ANNB({headSeq s'})", s!"bcast:GETB({headSeq s'}/{reqCount})"])
+
+/-- AnnounceBlocksMessage.process -/
+def announceBlocks (s : State) (maxSeq reqCount : Nat) : List String :=
+  if s.chain.isEmpty then [] else
+  if headSeq s ≥ maxSeq then [] else [s!"send:GETB({headSeq s}/{reqCount})"]
+
+/-- GetBlocksMessage.process + Visor.GetSignedBlocksSince (reply truncation by size is C23's subject) -/
+def getBlocks (s : State) (last req maxResp : Nat) : List Block :=
+  if s.chain.isEmpty then [] else
+  let ct := min (min req maxResp) (headSeq s - last)
+  (s.chain.filter fun b => last < b.seq && b.seq ≤ last + ct)
 
 end Sky.Ledger
